@@ -11,6 +11,7 @@ operators
   rename  one local variable renamed consistently (not a parameter, not used by a nested function)
   swapif  one `if c: A else: B` rewritten as `if not c: B else: A`
   notis   `x is not None` rewritten as `not (x is None)` (first occurrence)
+  renameall every such local renamed; swapif2/3 the second / third two-armed `if`; ternary one conditional expression flipped
 """
 import ast, copy, json, os, shutil, subprocess, sys, tempfile
 from concurrent.futures import ThreadPoolExecutor
@@ -54,7 +55,7 @@ def op_logmid(f, tree):
     return True
 
 
-def op_rename(f, tree):
+def op_rename(f, tree, all_=False):
     params = set(a.arg for a in f.args.args + f.args.kwonlyargs) | set(x.arg for x in (f.args.vararg, f.args.kwarg) if x)
     nested = set()
     for n in ast.walk(f):
@@ -73,19 +74,43 @@ def op_rename(f, tree):
                 cands.append(n.id)
     if not cands:
         return False
-    old = cands[0]
-    new = old + '_nv'
-    for n in ast.walk(f):
-        if isinstance(n, ast.Name) and n.id == old:
-            n.id = new
-        if isinstance(n, ast.ExceptHandler) and n.name == old:
-            n.name = new
+    for old in (cands if all_ else cands[:1]):
+        new = old + '_nv'
+        for n in ast.walk(f):
+            if isinstance(n, ast.Name) and n.id == old:
+                n.id = new
+            if isinstance(n, ast.ExceptHandler) and n.name == old:
+                n.name = new
     return True
 
 
-def op_swapif(f, tree):
+def op_renameall(f, tree):
+    return op_rename(f, tree, all_=True)
+
+
+def op_swapif(f, tree, k=0):
+    i = 0
     for n in ast.walk(f):
         if isinstance(n, ast.If) and n.orelse and not (len(n.orelse) == 1 and isinstance(n.orelse[0], ast.If)):
+            if i == k:
+                n.test = ast.UnaryOp(op=ast.Not(), operand=n.test)
+                n.body, n.orelse = n.orelse, n.body
+                return True
+            i += 1
+    return False
+
+
+def op_swapif2(f, tree):
+    return op_swapif(f, tree, 1)
+
+
+def op_swapif3(f, tree):
+    return op_swapif(f, tree, 2)
+
+
+def op_ternary(f, tree):
+    for n in ast.walk(f):
+        if isinstance(n, ast.IfExp):
             n.test = ast.UnaryOp(op=ast.Not(), operand=n.test)
             n.body, n.orelse = n.orelse, n.body
             return True
@@ -107,7 +132,7 @@ def op_notis(f, tree):
     return t.done
 
 
-OPS = {'log': op_log, 'logmid': op_logmid, 'rename': op_rename, 'swapif': op_swapif, 'notis': op_notis}
+OPS = {'log': op_log, 'logmid': op_logmid, 'rename': op_rename, 'renameall': op_renameall, 'swapif': op_swapif, 'swapif2': op_swapif2, 'swapif3': op_swapif3, 'ternary': op_ternary, 'notis': op_notis}
 
 
 def one(pid, rel, qual, opname, base):
